@@ -12,6 +12,9 @@ projection (all range queries, head, get_by_height / has_at / metadata for every
 get_by_hash / has for every hash ever seen) is logged; Trace_Store drives the same actions and
 requires result kind and projection to match, and evaluates SegmentsLinked / SetsInv on every
 state.  The two backends must also return identical result kinds.
+Concurrency: pairs of inserts are issued from two threads at the same instant (same batch twice, overlapping
+batches, the halves that close a gap, an honest batch and an adjacent fork batch); a "par" event is accepted
+only if ONE of the two sequential orders of Store.tla's insert explains both results and the store afterwards.
 """
 import json
 import vf
@@ -24,7 +27,8 @@ ENTRIES = {
                 "histories run on InMemoryStore and RedbStore log result kind and the complete query projection "
                 "after every operation, and Trace_Store (TLC) accepts a history only if every event is the model's "
                 "action with an allowed result kind and an identical projection; result kinds must be identical "
-                "across the two backends.",
+                "across the two backends. Pairs of inserts issued concurrently from two threads must be explained by one "
+                "of their two sequential orders (linearizability of insert).",
         "design_ref": "7 C19, A.2",
         "note": "For a failing insert any error kind that applies to the batch is accepted (the statement says 'the "
                 "same error kinds', not a precedence among simultaneous errors); cross-backend equality of kinds is "
@@ -35,7 +39,8 @@ ENTRIES = {
         "text": "Store.tla's failing actions leave all state unchanged (action property FailedUnchanged checked by "
                 "TLC); in recorded histories every failing operation's full projection must equal the model state, "
                 "i.e. the state before the call; duplicate-hash headers are placed at first/middle/last batch "
-                "positions on admissible placements and corrected batches are re-inserted by the driver.",
+                "positions on admissible placements and corrected batches are re-inserted by the driver. For two "
+                "concurrent inserts the refused one must have left no trace in any sequential explanation.",
         "design_ref": "7 C20",
         "note": "A panic of the store after a failed operation is recorded as an observation and reported.",
         "technique": "TLA+ action property + TLC trace validation of failing operations with full-state projection",
@@ -43,7 +48,8 @@ ENTRIES = {
     "C21": {
         "text": "SegmentsLinked (adjacent stored headers verify, hash index injective and consistent) is an invariant "
                 "of Store.tla checked exhaustively in the small scope and evaluated by TLC on every state of every "
-                "validated implementation trace (the trace's projection is read back from the real store).",
+                "validated implementation trace (the trace's projection is read back from the real store), including the "
+                "states reached by two concurrent inserts of adjacent batches (honest + fork).",
         "design_ref": "7 C21",
         "note": "Header verification is abstracted to (height, chain id, time, validators hash, parent hash) "
                 "equalities extracted from the real headers; signatures are covered by C01-C03.",
@@ -78,6 +84,8 @@ def run(ck):
         if ck.prop == "C19":
             ck.violation({"kind": "backend-disagreement", "mem": RES.get(d["mem"]), "redb": RES.get(d["redb"])},
                          f"in-memory and redb stores returned different result kinds: {d}", d)
+    if s["extra"].get("concurrent_insert_pairs", 0) < 5:
+        raise vf.ToolError("vacuity: fewer than 5 concurrent insert pairs were executed")
     for line in open(trace):
         if '"name":"panic"' in line:
             ev = json.loads(line)
@@ -120,7 +128,19 @@ def run(ck):
                     lo, hi = first["h"], last["h"]
                     if (lo - 1 in byh and not adj(byh[lo - 1], first)) or (hi + 1 in byh and not adj(last, byh[hi + 1])):
                         linked = False
-        if inv == "SegmentsLinked" or (ev.get("name") == "insert" and ev.get("res") == 1 and not linked):
+        if ev.get("name") == "par":
+            # two concurrent inserts that no sequential order explains: unlinked neighbours in the store afterwards
+            # are C21's, a refused insert that left traces is C20's, anything else C19's
+            desc = {}
+            for ln in run_lines:
+                if '"name":"hdr"' in ln:
+                    d = json.loads(ln)["d"]
+                    desc[d["id"]] = d
+            byh = {h: desc.get(i) for h, i, *_ in (ev.get("st") or {}).get("byh", [])}
+            linked = all(adj(byh[h], byh[h + 1]) for h in byh if h + 1 in byh)
+            failing = ev.get("ra") != 1 or ev.get("rb") != 1
+            ev = dict(ev, res=ev.get("ra") if ev.get("ra") != 1 else ev.get("rb"))
+        if inv == "SegmentsLinked" or (ev.get("name") in ("insert", "par") and not linked and (ev.get("name") == "par" or ev.get("res") == 1)):
             # a batch that is not hash-linked was accepted: the store now holds unlinked neighbours
             owner = "C21"
         elif failing:
